@@ -44,7 +44,7 @@ def rule_who(R):
     cm = roles.conn_methods(f)
     call, hb, hcode = roles.handshake(f)
     hnd, sw = outq.inbound_handler(f)
-    cf_b, cf = cm["complete_flush"]
+    cf_b, cf = roles.flush_completion(f)
     n = 0
     for (b, bb, v, span) in field_stores(f, "ping_timeout"):
         n += 1
@@ -169,6 +169,8 @@ def rule_due(R):
     # the due test: a predicate of its own (should_queue_pingreq) or, when that was folded into its caller, the
     # condition under which maybe_queue_pingreq reaches the enqueue
     embedded = "should_queue_pingreq" not in cm
+    if "maybe_queue_pingreq" not in cm:
+        raise AnchorLost("Connection::maybe_queue_pingreq", "the keep-alive enqueue is no longer a function of its own (folded into the step loops)")
     if embedded:
         sq_b, sq = cm["maybe_queue_pingreq"]
         marks = [c.bb for c in outq.calls_to(f, sq, qc)]
